@@ -21,6 +21,7 @@ PY = os.environ.get("XDEPS_PYTHON", "/venv/bin/python")
 XDRIVER = os.path.join(LEAN, ".lake", "build", "bin", "xdriver")
 NPROC = min(16, os.cpu_count() or 4)
 ALLOWED_AXIOMS = {"propext", "Classical.choice", "Quot.sound"}
+TIER = "quick"
 
 _scratch = None
 
@@ -167,6 +168,16 @@ def audit(prop):
         thms[m.group(1)] = []
     if not ok:
         problems.append("audit file does not check: " + out[-1500:])
+    if TIER == "thorough" and not problems:
+        # the toolchain's independent re-checker replays the compiled declarations of the property module
+        # (and everything it imports) through the kernel
+        with LeanLock():
+            r = subprocess.run(["lake", "env", "leanchecker", "XProofs.Properties." + prop], cwd=LEAN,
+                               capture_output=True, text=True, timeout=3000)
+        if r.returncode != 0:
+            problems.append("leanchecker rejects XProofs.Properties.%s: %s" % (prop, (r.stdout + r.stderr)[-800:]))
+        else:
+            thms["(leanchecker XProofs.Properties.%s)" % prop] = ["re-checked"]
     return thms, problems
 
 
